@@ -246,8 +246,10 @@ class kLeastAbsErrors(pathmodel.AbstractPathModelDAG):
         # then we know their edges must appear in the solution, so we add their edges to the trusted edges for safety
         self.optimization_options["trusted_edges_for_safety"] = set(self.trusted_edges_for_safety or [])
         if self.subpath_constraints is not None:
+            # (with coverage by length, edges of length 0 need not appear although 100% of the length is covered)
             if (self.subpath_constraints_coverage == 1.0 and self.subpath_constraints_coverage_length is None) \
-                or self.subpath_constraints_coverage_length == 1:
+                or (self.subpath_constraints_coverage_length == 1 and all(
+                    self.G[u][v].get(self.length_attr, 1) > 0 for constraint in self.subpath_constraints for (u, v) in constraint if self.G.has_edge(u, v))):
                 for constraint in self.subpath_constraints:
                     # (only well-formed edges; malformed constraints are reported as ValueError by the base class)
                     self.optimization_options["trusted_edges_for_safety"].update(edge for edge in constraint if isinstance(edge, tuple))
